@@ -282,8 +282,7 @@ func (d *Device) handleABSEvent(ie *input.InputEvent) {
 		// a held pair of actions blocks new presses only, releases always have to be registered
 		switch {
 		case value <= -0.5:
-			d.invokeActionRelease(analog.Action)
-			delete(d.actionTracker, analog.Action)
+			d.releaseAxisAction(analog.Action)
 
 			if d.checkDoubleActions() {
 				return
@@ -291,13 +290,10 @@ func (d *Device) handleABSEvent(ie *input.InputEvent) {
 			d.invokeActionPress(analog.ActionNeg)
 			d.actionTracker[analog.ActionNeg] = true
 		case value > -0.49 && value < 0.49:
-			d.invokeActionRelease(analog.ActionNeg)
-			d.invokeActionRelease(analog.Action)
-			delete(d.actionTracker, analog.ActionNeg)
-			delete(d.actionTracker, analog.Action)
+			d.releaseAxisAction(analog.ActionNeg)
+			d.releaseAxisAction(analog.Action)
 		case value >= 0.5:
-			d.invokeActionRelease(analog.ActionNeg)
-			delete(d.actionTracker, analog.ActionNeg)
+			d.releaseAxisAction(analog.ActionNeg)
 
 			if d.checkDoubleActions() {
 				return
